@@ -9,7 +9,7 @@
    of ExtrOcamlBasic (list, option, pairs, bool) plus N/Z.  No record field, constructor or type name
    of Bep44.v appears in the driver, so the flat extraction may rename them freely when other models
    define the same names. *)
-From Dht Require Import Base Bep44 Bep44Fault Sha1.
+From Dht Require Import Base Bep44 Bep44Fault Bep44Rebuild Sha1.
 Local Open Scope Z_scope.
 
 (* ---- items ---- *)
@@ -126,6 +126,51 @@ Section Seq.
     | (st', _) => (st', (-2, None))
     end.
 End Seq.
+
+(* ---- the same operations over an underlying Store that rebuilds items (Bep44Rebuild.v).
+   fp / fg: the store loses the time stamp when the item is written / when it is read back ---- *)
+Definition rb_zero_time : Z := go_zero_time.
+
+Section SeqK.
+  Variable edv : bytes -> bytes -> bytes -> bool.
+  Variable exp : Z.
+  Variable fp fg : bool.
+
+  Definition rb_skput (st : sstate) (i : item) : sstate * Z :=
+    match kseq_step sha1 edv (mkKind fp fg) Repaired exp st (EPut i) with
+    | (st', OPut r) => (st', rb_put_code r)
+    | (st', _) => (st', -2)
+    end.
+
+  Definition rb_skget (st : sstate) (t : bytes) : sstate * option item :=
+    match kseq_step sha1 edv (mkKind fp fg) Repaired exp st (EGet t) with
+    | (st', OGet r) => (st', r)
+    | (st', _) => (st', None)
+    end.
+
+  Definition rb_skwput (st : sstate) (bv k salt sg : bytes) (cas : Z) (seq : option Z) : sstate * Z :=
+    match kseq_step sha1 edv (mkKind fp fg) Repaired exp st (EWirePut (mkPutArgs bv k salt sg cas seq)) with
+    | (st', OWirePut SReply) => (st', 0)
+    | (st', OWirePut (SError c)) => (st', c)
+    | (st', _) => (st', -2)
+    end.
+
+  Definition rb_skwget (st : sstate) (t : bytes) (sq : option Z)
+    : sstate * (option Z * option (bytes * bytes * bytes)) :=
+    match kseq_step sha1 edv (mkKind fp fg) Repaired exp st (EWireGet t sq) with
+    | (st', OWireGet g) => (st', (gr_seq g, gr_val g))
+    | (st', _) => (st', (None, None))
+    end.
+
+  Definition rb_sklput (st : sstate) (bv : bytes) (k : option bytes) (salt sg : bytes) (cas seq : Z)
+    : sstate * (Z * option (bytes * bytes * bytes * bytes * Z * option Z)) :=
+    match kseq_step sha1 edv (mkKind fp fg) Repaired exp st (ELocalPut (mkPutIn bv k salt sg cas seq)) with
+    | (st', OLocal (LQuery a)) =>
+        (st', (0, Some (pa_bv a, pa_k a, pa_salt a, pa_sig a, pa_cas a, pa_seq a)))
+    | (st', OLocal (LErr r)) => (st', (rb_put_code r, None))
+    | (st', _) => (st', (-2, None))
+    end.
+End SeqK.
 
 (* ---- concurrent cases: the harness acts on one thread at a time ("start it" or "let it perform the
    store call it is waiting at") and then reports, for every thread, where it is.  Lock acquire and
